@@ -406,6 +406,7 @@ def main(argv):
     if cmd == 'setup':
         for fl, kinds in P.SETUP_BUILDS:
             B.build(fl, kinds)
+        B.build_cmake_traces()
         return 0
     if cmd == 'build':
         for fl in argv[1:]:
